@@ -35,7 +35,10 @@ class IkeSaController:
         return next(x for x in self.ike_sas if x.my_spi == spi)
 
     def _get_ike_sa_by_addrs(self, my_addr, peer_addr):
-        return next(x for x in self.ike_sas if x.my_addr == my_addr and x.peer_addr == peer_addr)
+        # an IKE_SA that is being replaced or closed will not negotiate anything any more
+        return next(x for x in self.ike_sas if x.my_addr == my_addr and x.peer_addr == peer_addr
+                    and x.state not in (IkeSa.State.REKEYED, IkeSa.State.DEL_AFTER_REKEY_IKE_SA_REQ_SENT,
+                                        IkeSa.State.DEL_IKE_SA_REQ_SENT, IkeSa.State.DELETED))
 
     def _get_ike_sa_by_child_sa_spi(self, spi):
         for ike_sa in self.ike_sas:
